@@ -215,13 +215,19 @@ def declName (pkgPath : Str) (e : Entity) : Str :=
     | none => e.baseName
   funcNameStr pkgPath fnName e.recv false
 
+/-- `(*context).funcName`, package of a go/ssa method wrapper (`fn.Pkg == nil`): a wrapper for a method of an INSTANTIATED
+    generic type (`recv.Origin() != recv`: pointer wrapper of a value-receiver method, method promoted through an embedded
+    generic type) takes the package that declares the receiver type — the method table (`abitype.go abiMethodFunc`)
+    refers to it under that name from every package; any other wrapper takes the package being compiled. -/
+def wrapperPkg (cur : Str) (m : Entity) : Str := if m.instArgs.isSome then m.pkg else cur
+
 /-- The link name `(*context).funcName` / `varName` / the `ssa` package produce for entity `e` while package `cur`
     is being compiled (no `//go:linkname` in effect). -/
 def linkNameIn (cur : Str) : Entity → Str
   | .global p n => pathOf p ++ '.' :: n
   | .bound m => funcNameStr cur (m.baseName ++ "$bound".toList) m.recv false
   | .thunk m => funcNameStr cur (m.baseName ++ "$thunk".toList) m.recv false
-  | .wrapper m => funcNameStr cur m.baseName m.recv false
+  | .wrapper m => funcNameStr (wrapperPkg cur m) m.baseName m.recv false
   | .stub e => "__llgo_stub.".toList ++ linkNameIn cur e
   | .routine p n => p ++ "._llgo_routine$".toList ++ natStr n
   | e => declName e.pkg e
@@ -268,7 +274,7 @@ def synthName (cfg : Cfg) (cur : Str) (name : Str) (rc : Option Recv) : Str :=
 def linkNameInC (cfg : Cfg) (cur : Str) : Entity → Str
   | .bound m => synthName cfg cur (m.baseName ++ "$bound".toList) m.recv
   | .thunk m => synthName cfg cur (m.baseName ++ "$thunk".toList) m.recv
-  | .wrapper m => synthName cfg cur m.baseName m.recv
+  | .wrapper m => synthName cfg (wrapperPkg cur m) m.baseName m.recv
   | .stub e => "__llgo_stub.".toList ++ linkNameInC cfg cur e
   | e => linkNameIn cur e
 
